@@ -7,6 +7,9 @@
              unweighted hypergraphs under four label maps; TLC (Trace_C15) decides every returned value
              against the definitions of HyMMSBM.tla; Oracle_C15 returns the exact rationals, against which
              the raw floats and the Python transcription of Lambda / kappa are compared.
+             Input families: scales near 1 and far from 1 (the same model with its scale moved between u
+             and w), full affinities whose off-diagonal entries are tiny next to the diagonal (two-scale),
+             and models with many nodes (N up to 64, Trace_C15L: definitions that need no enumeration).
 3. monitor   fit() with the same seed and n_iter = 1..T, with u, w, both or none supplied; exact booleans
              and the likelihood computed from its definition are validated by TLC against EMDriver.
 """
@@ -282,6 +285,53 @@ def closed_form_case(rng, N, K, tier, idx):
     return c, raw, unclean, raised, descr
 
 
+EPS_EXP = 27          # 2^-27 = 7.45e-9
+
+
+def two_scale_case(rng, idx):
+    """a FULL affinity whose off-diagonal entries are tiny next to its diagonal: w = (Wd + 2^-27 Wo) * 2^-ew with Wd diagonal
+    (entries 0..2) and Wo off-diagonal (entries 0/1, not all 0).  Every quantity of the statement is linear in w, so its exact
+    value is value(Wd) + 2^-27 value(Wo): TLC (oracle mode) evaluates the definitions on the two integer matrices.  The
+    memberships are large next to the diagonal affinities so that the off-diagonal part of a result is visible at 1e-9."""
+    from hypergraphx.communities.hy_mmsbm.model import HyMMSBM
+    N, K = rng.randint(3, 6), rng.choice([2, 2, 3])
+    D = rng.randint(2, N)
+    U = [[rng.randint(0, 3) for _ in range(K)] for _ in range(N)]
+    Wd = [[(rng.choice([0, 1, 1, 2]) if a == b else 0) for b in range(K)] for a in range(K)]
+    Wo = [[0] * K for _ in range(K)]
+    pairs = [(a, b) for a in range(K) for b in range(a + 1, K)]
+    for a, b in pairs:
+        Wo[a][b] = Wo[b][a] = rng.randint(0, 1)
+    if not any(map(any, Wo)):
+        a, b = rng.choice(pairs)
+        Wo[a][b] = Wo[b][a] = 1
+    eu, ew = rng.choice([(0, 0), (0, 0), (1, 0), (0, 2), (-3, 6)])
+    labels = LABEL_FAMILIES[FAMS[idx % 4]](N)
+    edges = list(dict.fromkeys(tuple(sorted(rng.sample(range(1, N + 1), rng.randint(2, N)))) for _ in range(rng.randint(1, 6))))
+    h = build_hypergraph(labels, edges, None, rng)
+    inc, row2id = rows_of(h, labels)
+    id2row = {i: r for r, i in enumerate(row2id)}
+    u = np.array([U[row2id[r] - 1] for r in range(N)], dtype=float) * 2.0 ** -eu
+    w = (np.array(Wd, dtype=float) + np.array(Wo, dtype=float) * 2.0 ** -EPS_EXP) * 2.0 ** -ew
+    raw, raised = {}, []
+    cols = [sorted(row2id[r] for r in inc[:, [j]].nonzero()[0]) for j in range(inc.shape[1])]
+    with quiet():
+        m = HyMMSBM(u=u, w=w, max_hye_size=D)
+        for name, f in (("pp", lambda: [float(x) for x in m.poisson_params(inc)]),
+                        ("deg", lambda: [float(m.expected_degree(per_node=True)[id2row[i]]) for i in range(1, N + 1)]),
+                        ("avg", lambda: float(m.expected_degree(per_node=False))),
+                        ("count", lambda: {int(k): float(v) for k, v in m.dimension_sequence(include_dyadic=True, expected=True).items()})):
+            try:
+                raw[name] = f()
+            except Exception as ex:
+                raised.append((name, repr(ex)))
+    alle = [list(e) for d in range(2, D + 1) for e in itertools.combinations(range(1, N + 1), d)]
+    oc = [{"N": N, "D": D, "u": U, "w": W_, "edges": alle + cols, "nall": len(alle)} for W_ in (Wd, Wo)]
+    descr = {"N": N, "K": K, "D": D, "u_int": U, "w_diagonal_int": Wd, "w_off_diagonal_int_times_2_to_the_minus_27": Wo,
+             "u_times_2_to_the": -eu, "w_times_2_to_the": -ew, "labels": labels, "edges": edges, "two_scale": True}
+    return descr, raw, raised, oc, 2.0 ** (2 * eu + ew)
+
+
 def close(x, num, den):
     v = num / den
     return abs(x - v) <= REL * max(1.0, abs(v))
@@ -330,8 +380,13 @@ def validate_closed_forms(res, tier, rng):
         c = cases[idx]
         alle = [list(e) for d in range(2, c["D"] + 1) for e in itertools.combinations(range(1, c["N"] + 1), d)]
         ocases.append({"N": c["N"], "D": c["D"], "u": c["u"], "w": c["w"], "edges": alle + c.get("edges", []), "nall": len(alle)})
+    n_two = 60 if tier == "quick" else 600
+    two = [two_scale_case(rng, i) for i in range(n_two)]
+    n_small = len(ocases)
+    for t in two:
+        ocases += t[3]
     outs = []
-    chunks = [ocases[i:i + 150] for i in range(0, len(ocases), 150)]
+    chunks = [ocases[i:i + 110] for i in range(0, len(ocases), 110)]
     import concurrent.futures as cf
     with cf.ThreadPoolExecutor(max_workers=8) as ex:
         for o in ex.map(lambda ch: EM.oracle("Oracle_C15", ch), chunks):
@@ -375,6 +430,38 @@ def validate_closed_forms(res, tier, rng):
                     bad.add("kappa")
         if bad:
             rejected.setdefault(idx, set()).update(bad)
+    # the two-scale affinities: exact value = value(Wd) + 2^-27 value(Wo), floats compared at 1e-9 * max(1, |value|)
+    two_rejected = 0
+    eps = Fraction(1, 2 ** EPS_EXP)
+    for k, (d, raw, raised, oc, s) in enumerate(two):
+        od, oo = outs[n_small + 2 * k], outs[n_small + 2 * k + 1]
+        mix = lambda a, b: Fraction(*a) + eps * Fraction(*b) if isinstance(a, list) else a + eps * b
+        nall, bad = oc[0]["nall"], set()
+        cl = lambda x, xv: abs(x * s - float(xv)) <= REL * max(1.0, abs(float(xv)))
+        if "pp" in raw and not all(cl(x, mix(a, b)) for x, a, b in zip(raw["pp"], od["lam"][nall:], oo["lam"][nall:])):
+            bad.add("poisson_params")
+        if "deg" in raw and not all(cl(x, mix(a, b)) for x, a, b in zip(raw["deg"], od["deg"], oo["deg"])):
+            bad.add("expected_degree_per_node")
+        if "avg" in raw and not cl(raw["avg"], mix(od["avg"], oo["avg"])):
+            bad.add("expected_degree_average")
+        if "count" in raw:
+            for dd, a, b in zip(range(2, d["D"] + 1), od["count"], oo["count"]):
+                xv, got = mix(a, b), raw["count"].get(dd)
+                if (got is None) != (xv == 0) or (got is not None and not cl(got, xv)):
+                    bad.add("dimension_sequence")
+        if raised:
+            res.reject({"clauses": sorted({"pp": "poisson_params", "deg": "expected_degree_per_node", "avg": "expected_degree_average",
+                                           "count": "dimension_sequence"}[r[0]] for r in raised), "raised": True, "two_nodes": False},
+                       "HyMMSBM call(s) raised on valid parameters (N=%d, w = diagonal + tiny off-diagonal): %s" % (d["N"], raised[:3]), {"case": d})
+        if bad:
+            two_rejected += 1
+            res.reject({"clauses": sorted(bad), "raised": False, "two_nodes": False},
+                       "HyMMSBM value(s) %s differ from the definition for a full affinity with tiny off-diagonal entries: N=%d K=%d D=%d "
+                       "u=%s*2^%d w=(%s + 2^-27*%s)*2^%d" % (",".join(sorted(bad)), d["N"], d["K"], d["D"], d["u_int"], d["u_times_2_to_the"],
+                                                           d["w_diagonal_int"], d["w_off_diagonal_int_times_2_to_the_minus_27"], d["w_times_2_to_the"]),
+                       {"case": d, "returned": raw})
+    res.cov(two_scale_cases=len(two), two_scale_cases_rejected=two_rejected,
+            scale_shifted_cases=sum(1 for c in cases if abs(2 * c["eu"] + c["ew"]) > 8 or abs(c["ew"]) > 8))
     if drift:
         raise tlc.TLCError("the Python transcription of Lambda / kappa / the counting form of the expected statistics disagrees "
                            "with HyMMSBM.tla on %d integer inputs" % drift)
@@ -389,6 +476,176 @@ def validate_closed_forms(res, tier, rng):
             closed_form_values_checked=sum(len(c.get("pp", [])) + sum(len(r["per"]) + 1 for r in c["ed"]) +
                                            sum(len(r["got"]) for r in c["dimseq"]) + len(c["kappa"]) + len(c["C"]) for c in cases))
     res.sample({"closed_form_case": descr[-1], "logged": {k: cases[-1][k] for k in ("pp", "dimseq", "kappa") if k in cases[-1]}})
+
+
+# ---------------------------------------------------------------------------------------------
+# 2b. closed forms with MANY nodes (the statement quantifies over all N; brute force stops at N = 6)
+MANY_N = [7, 9, 12, 16, 20, 22, 23, 24, 25, 27, 30, 34, 40, 48, 56, 64]
+INT31 = 2 ** 31 - 1
+
+
+def many_labels(fam, N, rng):
+    if fam == "ident":
+        return list(range(1, N + 1))
+    if fam == "zero":
+        return list(range(N))
+    if fam == "str":
+        out = ["n%d" % i if i % 3 else "node-%02d" % i for i in range(N)]
+    else:
+        out = rng.sample(range(1, 10 * N), N)
+    rng.shuffle(out)
+    return out
+
+
+def kappa_fits(N, d):
+    """Kappa(N, d) of HyMMSBM.tla stays within TLC's 32-bit integers (Binom(n, k) multiplies Binom(n-1, k-1) by n first)"""
+    return kappa_def(N, d) <= INT31 and cmb(N - 2, d - 2) * max(1, d - 2) <= INT31 and cmb(N - 2, d - 2) * (N - 2) <= INT31
+
+
+def many_nodes_case(rng, idx):
+    from hypergraphx.communities.hy_mmsbm.model import HyMMSBM
+    N = MANY_N[idx % len(MANY_N)]
+    K = rng.randint(1, 3)
+    D = rng.choice([N, N, N - 1, rng.randint(max(2, N - 6), N), rng.randint(2, N)])
+    U = [[rng.choice([0, 0, 1, 1, 2, 3]) for _ in range(K)] for _ in range(N)]
+    diag = rng.random() < 0.4
+    W = [[0] * K for _ in range(K)]
+    for a in range(K):
+        for b in range(a, K):
+            W[a][b] = W[b][a] = 0 if (diag and a != b) else rng.randint(0, 3)
+    eu, ew = rng.choice(SHIFTS) if rng.random() < 0.25 else (rng.choice([0, 0, 1, 2]), rng.choice([0, 0, 1, 2]))
+    scale = 2.0 ** (2 * eu + ew)
+    fam = FAMS[(idx // len(MANY_N)) % 4]
+    labels = many_labels(fam, N, rng)
+    edges = []
+    for _ in range(rng.randint(2, 8)):
+        z = rng.choice([2, 3, rng.randint(2, N), rng.randint(max(2, N - 3), N)])
+        edges.append(tuple(sorted(rng.sample(range(1, N + 1), z))))
+    edges = list(dict.fromkeys(edges))
+    weights = [rng.randint(1, 4) for _ in edges] if rng.random() < 0.5 else None
+    h = build_hypergraph(labels, edges, weights, rng)
+    inc, row2id = rows_of(h, labels)
+    id2row = {i: r for r, i in enumerate(row2id)}
+    u = np.array([U[row2id[r] - 1] for r in range(N)], dtype=float) * 2.0 ** -eu
+    w = np.array(W, dtype=float) * 2.0 ** -ew
+    c = {"N": N, "D": D, "u": U, "w": W, "eu": eu, "ew": ew}
+    raw, unclean, raised = {}, [], []
+
+    def fr(name, x, s_=scale):
+        f, ok = frac(x, s_)
+        if not ok and name not in unclean:
+            unclean.append(name)
+        return f
+
+    d1 = rng.randint(2, D)
+    dsel = sorted({2, D, d1, rng.randint(2, D)})
+    with quiet():
+        m = HyMMSBM(u=u, w=w, max_hye_size=D)
+        cols = [sorted(row2id[r] for r in inc[:, [j]].nonzero()[0]) for j in range(inc.shape[1])]
+        try:
+            pp = m.poisson_params(inc if rng.random() < 0.5 else inc.toarray())
+            c["edges"] = cols
+            c["pp"] = [fr("poisson_params", x) for x in pp]
+        except Exception as ex:
+            raised.append(("poisson_params", repr(ex)))
+        try:
+            one = [float(m.log_kappa(d)) for d in range(2, D + 1)]
+            arr = [float(x) for x in m.log_kappa(np.arange(2, D + 1))]
+            raw["log_kappa"] = [one, arr]
+            c["kappa"] = [[d, fr("kappa", math.exp(x), 1)] for lst in (one, arr) for d, x in zip(range(2, D + 1), lst)
+                          if kappa_fits(N, d) and math.isfinite(x) and x < 25]
+        except Exception as ex:
+            raised.append(("log_kappa", repr(ex)))
+        try:
+            c["C"] = [{"d": d, "val": fr("C_constant", m.C(d), 1)} for d in dsel if kappa_fits(N, d)]
+            c["C"] += [{"d": d, "val": fr("C_constant", x, 1)} for d, x in zip(dsel, m.C(np.array(dsel), return_summands=True)) if kappa_fits(N, d)]
+        except Exception as ex:
+            raised.append(("C", repr(ex)))
+        raw["deg"] = []
+        c["avg"] = []
+        for arg, ds in (("all", list(range(2, D + 1))), (d1, [d1]), (np.array(dsel), dsel)):
+            try:
+                per = m.expected_degree(per_node=True, d=arg)
+                avg = float(m.expected_degree(per_node=False, d=arg))
+                raw["deg"].append({"ds": ds, "per": [float(per[id2row[i]]) for i in range(1, N + 1)], "avg": avg})
+                if len(ds) == 1:
+                    c["avg"].append({"d": ds[0], "val": fr("expected_degree_average", avg)})
+            except Exception as ex:
+                raised.append(("expected_degree(d=%s)" % (ds,), repr(ex)))
+        c["dimseq"] = []
+        for dy in (True, False):
+            try:
+                got = m.dimension_sequence(include_dyadic=dy, expected=True)
+                c["dimseq"].append({"dyadic": dy, "got": [[int(k), fr("dimension_sequence", v)] for k, v in got.items()]})
+                if dy:
+                    raw["count"] = {int(k): float(v) for k, v in got.items()}
+            except Exception as ex:
+                raised.append(("dimension_sequence", repr(ex)))
+    descr = {"N": N, "K": K, "D": D, "u_int": U, "w_int": W, "u_times_2_to_the": -eu, "w_times_2_to_the": -ew, "labels": labels,
+             "edges": edges, "weights": weights, "many_nodes": True}
+    return c, raw, unclean, raised, descr, scale
+
+
+def validate_many_nodes(res, tier, rng):
+    n_cases = 64 if tier == "quick" else 640
+    built = [many_nodes_case(rng, i) for i in range(n_cases)]
+    cases = [b[0] for b in built]
+    k0 = next(i for i, c in enumerate(cases) if c.get("pp") and c.get("kappa"))
+    bad = json.loads(json.dumps(cases[k0]))
+    bad["pp"][0] = [bad["pp"][0][0] + bad["pp"][0][1], bad["pp"][0][1]]
+    bad["kappa"][0] = [bad["kappa"][0][0], [bad["kappa"][0][1][0] + 1, 1]]
+    v = K_.run_cases("Trace_C15L", cases + [bad], {}, procs=4)
+    st = [f for i, f in v["rejects"] if i == len(cases)]
+    if not st or not {"poisson_params", "kappa"} <= set(st[0]):
+        raise tlc.TLCError("Trace_C15L self-test: a corrupted case was not rejected (%s)" % st)
+    rejected = {}
+    for idx, failed in v["rejects"]:
+        if idx < len(cases):
+            if "harness_bounds" in failed:
+                raise tlc.TLCError("Trace_C15L: case outside the bounds: %s" % built[idx][4])
+            rejected.setdefault(idx, set()).update(failed)
+    n_kappa = n_big = 0
+    for idx, (c, raw, unclean, raised, d, s) in enumerate(built):
+        bad = set(unclean)
+        N, D = c["N"], c["D"]
+        # kappa: exact integer C(N-2, d-2) d (d-1) / 2 (cross-checked with Kappa of HyMMSBM.tla wherever that fits), in log space
+        for lst in raw.get("log_kappa", []):
+            for dd, x in zip(range(2, D + 1), lst):
+                ref = math.log(kappa_def(N, dd))
+                n_kappa += 1
+                n_big += not kappa_fits(N, dd)
+                if not (math.isfinite(x) and abs(x - ref) <= REL * max(1.0, abs(ref))):
+                    bad.add("kappa")
+        for r in raw.get("deg", []):
+            xdeg, xavg, _ = exact_stats(c["u"], c["w"], N, r["ds"])
+            if not all(close(x * s, v_.numerator, v_.denominator) for x, v_ in zip(r["per"], xdeg)):
+                bad.add("expected_degree_per_node")
+            if not close(r["avg"] * s, xavg.numerator, xavg.denominator):
+                bad.add("expected_degree_average")
+        if "count" in raw:
+            xcount = exact_stats(c["u"], c["w"], N, range(2, D + 1))[2]
+            for dd in range(2, D + 1):
+                got = raw["count"].get(dd)
+                if (got is None) != (xcount[dd] == 0) or (got is not None and not close(got * s, xcount[dd].numerator, xcount[dd].denominator)):
+                    bad.add("dimension_sequence")
+        if bad:
+            rejected.setdefault(idx, set()).update(bad)
+        if raised:
+            names = {"poisson_params": "poisson_params", "expected_degree": "expected_degree_per_node", "dimension_sequence": "dimension_sequence",
+                     "log_kappa": "kappa", "C": "C_constant"}
+            res.reject({"clauses": sorted({names[r[0].split("(")[0]] for r in raised}), "raised": True, "two_nodes": False},
+                       "HyMMSBM call(s) raised on valid parameters (N=%d, D=%d): %s" % (N, D, sorted(set(raised))[:3]), {"case": d})
+    for idx, failed in sorted(rejected.items()):
+        d = built[idx][4]
+        res.reject({"clauses": sorted(failed), "raised": False, "two_nodes": False},
+                   "HyMMSBM value(s) %s differ from the definition (sum over all possible hyperedges, by counting) for N=%d K=%d D=%d "
+                   "u=%s*2^%d w=%s*2^%d" % (",".join(sorted(failed)), d["N"], d["K"], d["D"], d["u_int"], d["u_times_2_to_the"], d["w_int"],
+                                           d["w_times_2_to_the"]),
+                   {"case": d, "logged": {k: v_ for k, v_ in cases[idx].items() if k not in ("u", "w")}, "returned": built[idx][1]})
+    res.cov(many_nodes_cases=len(cases), many_nodes_cases_rejected=len(rejected), many_nodes_validator_states=v["states"],
+            kappa_values_checked_in_log_space=n_kappa, kappa_values_beyond_32_bits=n_big, validator_selftests=1,
+            many_nodes_values_decided_by_tlc=sum(len(c.get("pp", [])) + len(c.get("kappa", [])) + len(c.get("C", [])) + len(c.get("avg", []))
+                                                 + sum(len(r["got"]) for r in c.get("dimseq", [])) for c in cases))
 
 
 # ---------------------------------------------------------------------------------------------
@@ -566,13 +823,23 @@ def run(tier, seed):
     t1 = time.time()
     with single_threaded():
         validate_closed_forms(res, tier, rng)
+        validate_many_nodes(res, tier, random.Random(seed * 1000003 + 1515))
         t2 = time.time()
         validate_fit(res, tier, rng)
     res.coverage["phase_wall_s"] = {"explore": round(t1 - t0, 1), "closed_forms": round(t2 - t1, 1), "fit_monitor": round(time.time() - t2, 1)}
     res.assume(
-        "closed forms: parameters are integer matrices (entries 0..3, N <= 6, K <= 3) divided by 1, 2 or 4; a returned float times the "
+        "closed forms: parameters are integer matrices (entries 0..3, N <= 6, K <= 3) times powers of two (u * 2^-eu, w * 2^-ew; one case "
+        "in four with the scale far from 1, |exponent| up to 50, moved into u, into w or from one into the other); a returned float times the "
         "(power of two) scale is converted to the nearest fraction with denominator <= %d, which must reproduce it within 1e-9*max(1,|x|); "
         "TLC decides equality of the fractions with the definitions exactly" % DEN,
+        "two-scale affinities w = (Wd + 2^-27 Wo) * 2^-ew (diagonal Wd, off-diagonal 0/1 Wo): every quantity is linear in w, TLC (oracle mode) "
+        "evaluates the definitions on Wd and on Wo, the floats are compared with value(Wd) + 2^-27 value(Wo) at 1e-9*max(1,|x|)",
+        "many nodes (N = 7..64, D up to N): brute force over all hyperedges is out of reach. TLC decides (Trace_C15L) the Poisson parameter of "
+        "each hyperedge from its definition, kappa_d = C(N-2,d-2) d(d-1)/2 wherever it fits 31 bits, C, and the expected counts / average "
+        "degree of ONE size against ExpCountCF / AvgDegCF, which MC_HyMMSBM proves equal to the brute-force definitions on its universes. "
+        "log_kappa(d) for every d <= D is compared in log space (1e-9*max(1,|log kappa|)) with the exact integer, and the per-node / average "
+        "degrees and counts for sets of sizes with exact Fractions obtained by counting (a pair lies in C(N-2,d-2) hyperedges of size d, a node "
+        "and a disjoint pair in C(N-3,d-3)); that transcription is cross-checked against TLC's brute force on every small case",
         "oracle mode: TLC writes the exact rationals; raw floats are compared with them in Python at 1e-9*max(1,|x|), and the Python "
         "transcription of Lambda / kappa used for the likelihood is cross-checked against TLC (disagreement = machinery failure)",
         "fit(): TLC has no reals. The log-likelihood is computed in Python FROM ITS DEFINITION (every possible hyperedge of size 2..D is "
